@@ -383,6 +383,15 @@ func (s *ExchState) Exchange(ctx context.Context, in arrow.RecordBatch, out *vgi
 		pairs = append(pairs, k+"="+md.Values()[i])
 	}
 	Note(s.Script.ID, "inmeta:"+strings.Join(pairs, "&"))
+	// the batch object itself is the other way metadata reaches a handler
+	if wm, ok := in.(arrow.RecordBatchWithMetadata); ok {
+		bm := wm.Metadata()
+		for i, k := range bm.Keys() {
+			if k == KStreamState || k == KCallState {
+				Note(s.Script.ID, "intoken:"+k+"="+Short(bm.Values()[i], 24))
+			}
+		}
+	}
 	return s.turn("exchange", out, sum*1000+int64(s.Pos))
 }
 
